@@ -25,6 +25,7 @@ class PdoDevice(RefSdoServer):
         super().__init__(refuse=self._refuse, **kw)
         self.mappable = dict(mappable)
         self.write_log = []           # (index, sub, int value, accepted, abort code)
+        self.locked = False           # e.g. while OPERATIONAL: every mapping write is refused (transient device state)
         self.pdos = {}                # com index -> map index
 
     # ---- set-up
@@ -87,6 +88,8 @@ class PdoDevice(RefSdoServer):
             if index == mp:                                # mapping parameter
                 if (index, sub) not in self.store:
                     return ABORT_NO_SUB
+                if self.locked:
+                    return ABORT_STATE
                 valid = not self.cob(com) >> 31 & 1
                 if sub == 0:
                     if len(data) != 1:
